@@ -261,4 +261,36 @@ theorem mediaRule_eval (O : Oracle) (ns : List (Cps × Cps)) (fuel : Nat) (at_ :
   simp only [t1, t2, ↓reduceIte, hO, mediaBlock, e3, sepEnd, List.dropLast_concat, List.getLast?_concat, t3, t4]
   simp [t2]
 
+theorem bal_cons_flat {t : Tok} {g : List Tok} (ht : t.br = .no) (hg : nest [] g = some []) :
+    nest [] (t :: g) = some [] := by
+  have : nest [] ([t] ++ g) = some [] := bal_append (nest_flat [] [t] (by simpa using ht)) hg
+  simpa using this
+
+theorem bal_braces {inner : List Tok} (h : nest [] inner = some []) :
+    nest [] (lbraceTok :: (inner ++ [rbraceTok])) = some [] := by
+  have hp : push [] lbraceTok = some [.brace] := by simp [push, Tok.br, lbraceTok, charTok]
+  have h1 : nest [.brace] inner = some [.brace] := nest_lift [] [] [.brace] inner h
+  unfold nest
+  simp only [hp]
+  rw [nest_append, h1]
+  simp [nest, rbrace_closes.1]
+
+theorem noEof_braces {inner : List Tok} (h : noEof inner = true) :
+    noEof (lbraceTok :: (inner ++ [rbraceTok])) = true := by
+  have : lbraceTok :: (inner ++ [rbraceTok]) = [lbraceTok] ++ (inner ++ [rbraceTok]) := rfl
+  rw [this, noEof_append, noEof_append, h]
+  decide
+
+/-- `t pre { inner }` is balanced and has no EOF -/
+theorem bal_blockStmt (t : Tok) (pre inner : List Tok) (ht : Flat .default t) (hpre : QB .default pre)
+    (hB : nest [] inner = some []) (hBe : noEof inner = true) :
+    nest [] (t :: (pre ++ lbraceTok :: (inner ++ [rbraceTok]))) = some [] ∧
+      noEof (t :: (pre ++ lbraceTok :: (inner ++ [rbraceTok]))) = true := by
+  constructor
+  · exact bal_cons_flat ht.2.1 (bal_append hpre.2 (bal_braces hB))
+  · have : t :: (pre ++ lbraceTok :: (inner ++ [rbraceTok])) = [t] ++ (pre ++ (lbraceTok :: (inner ++ [rbraceTok]))) := rfl
+    rw [this, noEof_append, noEof_append, hpre.noEof, noEof_braces hBe]
+    simp [noEof, ht.1]
+
+
 end CssVerif.SheetSpec
